@@ -11,7 +11,7 @@ histories of **any** length:
   violation `translate_three_frames_not_rect` of the excluded case; `compress_empty_unchanged`);
 * `step_names_nodup` / `run_names_nodup` — names stay pairwise distinct unless the caller edits names;
 * `step_refines` / `run_refines` — refinement to the plain-list reference model `Gv.Spec.stepOp`, for
-  all 30 operations of the history language (`Unalign` and `RenameRegexp` included);
+  all 31 operations of the history language (`Unalign`, `RenameRegexp` and `SetAlphabet` included);
 * `lookup_paths_agree`, `idByName_spec`, `byName_found_iff`, `obs_*` — the access paths agree;
 * `add_wrong_length_rejected` — a sequence of the wrong length is rejected, state unchanged.
 
@@ -135,6 +135,7 @@ theorem step_inv (b : Bag) (h : Inv b) (op : Op) (hw : OpWF b op) : Inv (stepOp 
     split
     · exact h
     · exact inv_renameRegexp names b h
+  | setAlpha a => exact inv_setAlphabet a b h
 
 /-- **Every reachable state satisfies the invariant**: induction over histories of any length, from
 any state satisfying it (in particular from the empty containers). -/
@@ -415,6 +416,7 @@ theorem step_rect (b : Bag) (h : Rect b) (op : Op) (hw : RectOK b op) : Rect (st
     split
     · exact h
     · exact rect_renameRegexp names h
+  | setAlpha a => exact rect_setAlphabet a h
 
 /-- **Every reachable alignment is rectangular**: induction over histories of any length. -/
 theorem run_rect (ops : List Op) (b : Bag) (h : Rect b) (hw : HistRectOK b ops) : Rect (finalState b ops) := by
@@ -553,11 +555,11 @@ def OpWFR (b : Bag) : Op → Prop
   | .sample _ perm => IsPerm perm b.rows.length
   | _ => True
 
-/-- **One step refines the reference model** — every one of the 30 operations of the history
+/-- **One step refines the reference model** — every one of the 31 operations of the history
 language (`add`, `ignore`, `clear`, `append`, `concat`, `rename`, `appendId`, `cleanNames`, `trimNames`,
 `trimAuto`, `sort`, `permute`, `filter`, `dedup`, `rmSeqs`, `translate`, `clone`, `sample`, `toUpper`,
 `toLower`, `replace`, `setChar`, `trimSeqs`, `autoAlpha`, `revcomp`, `replaceChar`, `rmGapSites`, `compress`,
-`unalign`, `renameRe`), arbitrary arguments: whenever the reference
+`unalign`, `renameRe`, `setAlpha`), arbitrary arguments: whenever the reference
 specifies the outcome of the operation on the observable content, the Go-shaped model yields exactly
 that content (names, row order, residues, policy, alphabet, kind) and that status, and the strong
 invariant holds again. -/
@@ -596,6 +598,7 @@ theorem step_refines (b : Bag) (h : Good b) (op : Op) (hw : OpWFR b op)
     | compress => exact ref_compress h
     | unalign => exact ref_unalign h
     | renameRe ok names => exact ref_renameRe h ok names
+    | setAlpha a => exact ref_setAlpha h a
   exact this s' st hs
 
 /-- the reference model run over a history: final content and the status of every step; `none` as
@@ -723,16 +726,18 @@ example : HistRectOK (newAlign 1) [.add "a" [65, 67, 71, 84, 65], .translate (-1
 -- `Unalign` in a history: the alignment (one all-gap row, two rows made to share a name) becomes a sequence set
 -- in which the second `a` has been renamed by the insertion; the history continues on that set (a sequence of
 -- another length is accepted, `Append` is answered `na`); then `RenameRegexp` with the new names supplied makes
--- two rows share a name again, and the lookup by name finds the first of them
+-- two rows share a name again, and the lookup by name finds the first of them; `SetAlphabet` to amino acids and
+-- back to nucleotides (A, C, G, T fit both), then to an alphabet that cannot be given
 def demoHist3 : List Op :=
   [.add "a" [65, 45, 67], .add "b" [45, 45, 45], .add "c" [45, 71, 71], .rename [("c", "a")], .unalign,
-   .add "d" [65, 67, 71, 84], .append [("z", [65])], .renameRe true ["x", "y", "x", "d"], .renameRe false []]
+   .add "d" [65, 67, 71, 84], .append [("z", [65])], .renameRe true ["x", "y", "x", "d"], .renameRe false [],
+   .setAlpha 0, .setAlpha 1, .setAlpha 2]
 
 set_option maxRecDepth 100000 in
 example : ∃ s' sts, specRun (abs (newAlign 1)) demoHist3 = some (s', sts) ∧
     abs (finalState (newAlign 1) demoHist3) = s' ∧ (runOps (newAlign 1) demoHist3).map (·.2) = sts ∧
     s'.rows = [("x", [65, 67]), ("y", []), ("x", [71, 71]), ("d", [65, 67, 71, 84])] ∧ s'.isAlign = false ∧
-    sts = ["ok", "ok", "ok", "ok", "ok", "ok", "na", "ok[a=x,b=y,a_0001=x,d=d]", "err[]"] := by
+    sts = ["ok", "ok", "ok", "ok", "ok", "ok", "na", "ok[a=x,b=y,a_0001=x,d=d]", "err[]", "ok", "ok", "err"] := by
   have hsome : (specRun (abs (newAlign 1)) demoHist3).isSome = true := by decide
   cases h : specRun (abs (newAlign 1)) demoHist3 with
   | none => rw [h] at hsome; cases hsome
@@ -740,7 +745,7 @@ example : ∃ s' sts, specRun (abs (newAlign 1)) demoHist3 = some (s', sts) ∧
     have := run_refines demoHist3 _ (good_of_empty_align 1) (by simp [demoHist3, HistWFR, OpWFR]) r.1 r.2 h
     have h2 : (specRun (abs (newAlign 1)) demoHist3).map (fun r => (r.1.rows, r.1.isAlign, r.2)) =
         some ([("x", [65, 67]), ("y", []), ("x", [71, 71]), ("d", [65, 67, 71, 84])], false,
-          ["ok", "ok", "ok", "ok", "ok", "ok", "na", "ok[a=x,b=y,a_0001=x,d=d]", "err[]"]) := by decide
+          ["ok", "ok", "ok", "ok", "ok", "ok", "na", "ok[a=x,b=y,a_0001=x,d=d]", "err[]", "ok", "ok", "err"]) := by decide
     rw [h] at h2
     simp only [Option.map_some, Option.some.injEq, Prod.mk.injEq] at h2
     exact ⟨r.1, r.2, rfl, this.1, this.2.1, h2.1, h2.2.1, h2.2.2⟩
